@@ -54,6 +54,7 @@ PLAN = {
     "C11": (["default", "compact", "radix+format", "compact+radix+format"], ["format", "radix", "pow2+format"]),
     "C12": (["format", "radix+format", "compact+radix+format"], ["pow2+format", "compact+format"]),
     "C13": (["radix+format", "format", "compact+radix+format"], ["pow2+format", "compact+format"]),
+    "C14": (["default", "compact", "radix+format"], ["pow2", "radix", "compact+radix+format", "format"]),
     "C15": (["default", "format", "radix+format", "compact+radix+format"], ["compact", "radix", "pow2+format"]),
     "C18": (["default", "pow2", "radix", "format", "radix+format"], ["compact+radix+format", "pow2+format", "nostd"]),
     "C19": (["default", "compact", "radix", "compact+radix+format"], ["pow2", "format", "compact+radix", "radix+format"]),
